@@ -142,4 +142,12 @@ func sortedKeys[V any](m map[string]V) []string {
 	return ks
 }
 
-func genExtra() {}
+func genExtra() {
+	genC03()
+	genC12()
+	genC18()
+	genC16()
+	genC17()
+	genC13()
+	genC04()
+}
